@@ -4,6 +4,7 @@ import (
 	"bytes"
 	"fmt"
 	"math/rand"
+	"strings"
 	"sync"
 	"time"
 
@@ -35,7 +36,72 @@ func c17Data(c c17Case) []byte {
 }
 
 // C17: compression is effective on redundancy and never expands data noticeably.
+// chunkPremises measures, on a real output, the two premises of Props.C17.C17_expansion_accounting:
+// every compressed chunk is not larger than its raw form (+3), and every chunk except the last of
+// its block carries at least 3000 bytes.
+func chunkPremises(r *Result, dp *DriverPool, cs c17Case, out []byte) {
+	var line string
+	if cs.Writer == "xz" {
+		line = "xzread 1 0 0 " + hxe(out)
+	} else {
+		line = fmt.Sprintf("lzma2read 1 %d %s", cs.Cfg.DictCap, hxe(out))
+	}
+	rep, err := dp.Ask(line)
+	if err != nil {
+		r.Violate("broken-correspondence", "driver", cs, err.Error())
+		return
+	}
+	m, err := parseModelRead(rep)
+	if err != nil || m.Class != "EOF" {
+		r.Violate("counterexample", "reference decoder rejects the output", cs, truncate(rep, 120))
+		return
+	}
+	var blocks [][]string
+	if cs.Writer == "xz" {
+		for _, b := range parseBlocks(m.Info) {
+			blocks = append(blocks, b.Chunks)
+		}
+	} else {
+		blocks = [][]string{strings.Split(strings.TrimSpace(m.Info), ",")}
+	}
+	r.mu.Lock()
+	r.TracesVsImpl++
+	r.mu.Unlock()
+	for _, chunks := range blocks {
+		var data []string
+		for _, c := range chunks {
+			if !strings.HasPrefix(c, "eos") && c != "" {
+				data = append(data, c)
+			}
+		}
+		for i, c := range data {
+			f := strings.Split(c, ":")
+			if len(f) < 3 {
+				continue
+			}
+			var u, csz int
+			fmt.Sscan(f[1], &u)
+			fmt.Sscan(f[2], &csz)
+			raw := f[0] == "u" || f[0] == "ud"
+			r.Inc("chunks_measured")
+			if !raw && csz+6 > u+3+3 {
+				r.Violate("counterexample", "chunk-form-rule: compressed chunk larger than its raw form", cs,
+					fmt.Sprintf("chunk %d (%s): compressed %d + header > uncompressed %d + 3: the smaller form was not chosen", i, f[0], csz, u))
+			}
+			if i < len(data)-1 && u < 3000 {
+				r.Violate("counterexample", "chunk-fill: a chunk that is not the last carries < 3000 bytes", cs,
+					fmt.Sprintf("chunk %d (%s) carries %d bytes (compressed %d) although more data followed", i, f[0], u, csz))
+			}
+		}
+	}
+}
+
 func checkC17(a *checkArgs, r *Result) error {
+	dp, err := newDriverPool(a.driver, 8)
+	if err != nil {
+		return err
+	}
+	defer dp.Close()
 	r.Rule = "size oracle of the property on the real writers: runs b^n (any byte, n up to 4 MiB for HashTable4, 40 KiB for BinaryTree whose run time is quadratic on runs) <= n/500; X||X for random X with |X| <= DictCap <= 1.15|X|; random data with DictCap >= 64 KiB <= n + n/500; each plus 128 bytes per stream and 64 per block; over dictionary sizes, look-ahead sizes, lc/lp/pb, both match finders, xz and LZMA2 writers (no Flush). Every output is also read back. Non-trivial: n >= 4096; distinct by case."
 	rng := rand.New(rand.NewSource(a.seed))
 	n := 130
@@ -125,6 +191,9 @@ func checkC17(a *checkArgs, r *Result) error {
 					r.Violate("counterexample", "roundtrip", cs, "output does not read back")
 					return
 				}
+			}
+			if cs.Cfg.DictCap >= 65536 {
+				chunkPremises(r, dp, cs, out)
 			}
 			allowance := 128 + 64*blocks
 			var allowed int
